@@ -325,7 +325,9 @@ pub fn digest(sim: &Sim) -> Hash {
     let q1: Vec<_> = sim.to_c.iter().map(kind).collect();
     let q2: Vec<_> = sim.to_s.iter().map(kind).collect();
     let ob: BTreeSet<_> = sim.observed.iter().map(kind).collect();
-    let used: Vec<_> = sim.used.iter().map(|(n, c, h)| (*n, *c, name(&Some(*h)))).collect();
+    // (the set is ordered by the random challenge values: order the renamed triples instead)
+    let mut used: Vec<_> = sim.used.iter().map(|(n, c, h)| (*n, *c, name(&Some(*h)))).collect();
+    used.sort();
     saito_core::core::util::crypto::hash(format!("{:?}|{:?}|{:?}|{:?}|{:?}|{:?}|{:?}", st, ct, at, q1, q2, ob, used).as_bytes())
 }
 
@@ -356,12 +358,18 @@ pub fn main(tier: Tier, _replay: Option<String>) -> i32 {
         "signatures cannot be forged; the attacker owns key K3 only".into(),
         "a pure relay of a genuine answer to a genuine challenge is inherent to challenge-response without channel binding and is not flagged; a node connected under its own key, a challenge accepted twice, an unsolicited or wrongly-versioned response, and any change to an authenticated connection caused from another connection are".into(),
     ];
+    // the peer tables are hash maps whose iteration order some handlers depend on (first peer found
+    // with a key); hook H4 makes that order a function of a seed: explore under several
+    let map_seeds: Vec<u64> = if tier.thorough { vec![0, 1, 2, 3] } else { vec![0, 1] };
+    let mut all_seen: BTreeSet<Hash> = BTreeSet::new();
+    for map_seed in map_seeds.iter().cloned() {
     let mut seen: BTreeSet<Hash> = BTreeSet::new();
     let mut frontier: Vec<Vec<Act>> = vec![vec![]];
     let mut level = 0;
     while level < depth && !frontier.is_empty() {
         level += 1;
         let results = par_map(&frontier, workers(), |_, h| {
+            saito_core::core::verif_hooks::set_map_seed(map_seed);
             let mut r = rep.child();
             let mut out = vec![];
             let Some(s0) = replay(h, &mut r.child()) else { return (r, out) };
@@ -396,8 +404,11 @@ pub fn main(tier: Tier, _replay: Option<String>) -> i32 {
         }
         frontier = next;
     }
-    rep.states = seen.len() as u64;
-    rep.distinct = seen.iter().map(|h| hex::encode(&h[0..8])).collect();
+    rep.states += seen.len() as u64;
+    all_seen.extend(seen);
+    }
+    rep.extra.insert("peer_map_seeds".into(), json!(map_seeds));
+    rep.distinct = all_seen.iter().map(|h| hex::encode(&h[0..8])).collect();
     rep.sample(json!({"history": ["DeliverToC", "DeliverToS", "DeliverToC"], "meaning": "honest handshake completes"}));
     rep.required_outcomes = vec!["connected:S:K1:genuine-delivery".into(), "connected:C:K0:genuine-delivery".into(), "connected:S:K3:injected".into()];
     let _: BTreeMap<u8, u8> = BTreeMap::new();
